@@ -140,7 +140,20 @@ def rand_vals(rng, n):
         v[(u >= 0.11) & (u < 0.14)] = 0.0
         v[(u >= 0.14) & (u < 0.17)] = rng.choice([-1e30, 1e30, -88.0, 88.0, -104.0], int(((u >= 0.14) & (u < 0.17)).sum()))
         return v
-    return col(), col(), col()
+    lp, lpp, c = col(), col(), col()
+    # large log-densities (|lp| up to 1e7) a few float32 steps apart, with a small non-zero correction: the documented
+    # association (lp' - lp) + c is exact in the difference, any other association loses the correction or the difference
+    k = max(1, n // 6)
+    idx = rng.choice(n, size=k, replace=False)
+    base = (-np.exp(rng.uniform(np.log(1e2), np.log(1e7), k))).astype(np.float32)
+    steps = rng.integers(-3, 4, k)
+    prop = base.copy()
+    for _ in range(3):
+        prop = np.where(steps > 0, np.nextafter(prop, np.float32(np.inf)), np.where(steps < 0, np.nextafter(prop, np.float32(-np.inf)), prop))
+        steps = steps - np.sign(steps)
+    lp[idx], lpp[idx] = base, prop.astype(np.float32)
+    c[idx] = (rng.choice([-1.0, 1.0], k) * np.exp(rng.uniform(np.log(1e-4), np.log(2.0), k))).astype(np.float32)
+    return lp, lpp, c
 
 
 def case_tuples(case, res):
